@@ -1003,7 +1003,7 @@ def gen_rechunk(tier):
             yield [inp(shape, c1)], dict(chunks=list(c2))
 
 
-reg("rechunk", gen_rechunk, lambda xs, p: xs[0].rechunk(_t(p["chunks"])), lambda ns, p: ns[0], group="top")
+reg("rechunk", gen_rechunk, lambda xs, p: xs[0].rechunk(_t(p["chunks"]), allow_irregular=p.get("allow_irregular", True)), lambda ns, p: ns[0], group="top")
 
 
 def _mb_func(a, block_id=None):
